@@ -3,6 +3,7 @@
 -/
 import Props.C03
 import Proofs.Attestation
+import Props.C11
 namespace Webauthn.Props.C06
 open Webauthn Generated Webauthn.Props.C03
 
@@ -124,5 +125,166 @@ theorem bitflip_reg_packed_self {W : World} {c c' : RegCred} {e : RegExpect} {r 
     rw [hcdj] at hv'
     obtain ⟨hbb, _⟩ := huniq pk s _ _ _ _ hv hv'
     rw [hsig, hsig', hbb]
+
+/-- two checked signatures with the same signature member are over the same authenticator data and client data -/
+theorem sig_same_data_same {W : World} {sig sig' : Option Cbor} {ad ad' cdj cdj' : Bytes} {k k' : PubKey} {alg alg' : Cbor}
+    (h : SigChecked W k alg sig (ad ++ W.sha256 cdj)) (h' : SigChecked W k' alg' sig' (ad' ++ W.sha256 cdj'))
+    (hs : sig' = sig) (hbind : SigBinds W) (hlen : HashLen32 W) (hcol : NoCollision W cdj cdj') :
+    ad' = ad ∧ cdj' = cdj := by
+  obtain ⟨s, b, _, hsig, hv⟩ := h
+  obtain ⟨s', b', _, hsig', hv'⟩ := h'
+  rw [hsig, hsig'] at hs
+  have hb : b' = b := by cases hs; rfl
+  subst hb
+  have hdata := hbind _ _ _ _ _ _ _ hv hv'
+  obtain ⟨had, hhash⟩ := append_inj_right_len hdata (by rw [hlen, hlen])
+  exact ⟨had.symm, (hcol hhash).symm⟩
+
+/-- the formats whose statement signature is directly over authenticatorData ‖ SHA-256(clientDataJSON):
+packed (with or without x5c) and android-key. Of two accepted registrations of such a format carrying the same
+signature member, authenticator data and client data are the same — so any change to either, the signature kept,
+is rejected (under the named idealisations). -/
+theorem bitflip_reg_direct_signature {W : World} {c c' : RegCred} {e : RegExpect} {r r' : VerifiedReg} {ao ao' : AttObj}
+    (h : runM W (verifyReg c e) = .ok r) (h' : runM W (verifyReg c' e) = .ok r')
+    (hf : r.fmt = "packed" ∨ r.fmt = "android-key") (hf' : r'.fmt = r.fmt)
+    (hao : parseAttObj c.attestationObject = .ok ao) (hao' : parseAttObj c'.attestationObject = .ok ao')
+    (hsig : ao'.attStmt.sig = ao.attStmt.sig)
+    (hbind : SigBinds W) (hlen : HashLen32 W) (hcol : NoCollision W c.clientDataJSON c'.clientDataJSON) :
+    ao'.authDataRaw = ao.authDataRaw ∧ c'.clientDataJSON = c.clientDataJSON := by
+  obtain ⟨ao1, att, roots, hao1, _, _, _, _, _, hp, _, _, _, hk, _⟩ := (registration h).rules
+  obtain ⟨ao2, att', roots', hao2, _, _, _, _, _, hp', _, _, _, hk', _⟩ := (registration h').rules
+  rw [hao] at hao1; cases hao1
+  rw [hao'] at hao2; cases hao2
+  -- in each case extract "authDataRaw = bytes ad" and a SigChecked over ad ++ H(cdj)
+  have key : ∀ {W : World} {c : RegCred} {e : RegExpect} {r : VerifiedReg} {ao : AttObj} {roots : List Root},
+      (r.fmt = "packed" →
+        (cborTruthy ao.attStmt.x5c = true → PackedX5cRules W ao.attStmt ao.authDataRaw c.clientDataJSON roots) ∧
+        (cborTruthy ao.attStmt.x5c = false →
+          PackedSelfRules W ao.attStmt ao.authDataRaw c.clientDataJSON r.credentialPublicKey)) →
+      (r.fmt = "android-key" →
+        AndroidKeyRules W ao.attStmt ao.authDataRaw c.clientDataJSON r.credentialPublicKey roots) →
+      (r.fmt = "packed" ∨ r.fmt = "android-key") →
+      ∃ ad k alg, ao.authDataRaw = .bytes ad ∧ SigChecked W k alg ao.attStmt.sig (ad ++ W.sha256 c.clientDataJSON) := by
+    intro W c e r ao roots hp hk hf
+    rcases hf with hf | hf
+    · cases hx : cborTruthy ao.attStmt.x5c with
+      | true =>
+        obtain ⟨ad, x5c, leaf, rest, cert, alg, hraw, _, _, _, _, _, _, hs⟩ := ((hp hf).1 hx).rules
+        exact ⟨ad, _, _, hraw, hs⟩
+      | false =>
+        obtain ⟨ad, key, pk, alg, hraw, _, _, _, _, _, _, hs⟩ := ((hp hf).2 hx).rules
+        exact ⟨ad, _, _, hraw, hs⟩
+    · obtain ⟨ad, x5c, rootDer, rootCert, leaf, rest, cert, alg, key, pk, kdDer, kd, hraw, _, _, _, _, _, _, _, _, hs, _⟩ :=
+        (hk hf).rules
+      exact ⟨ad, _, _, hraw, hs⟩
+  obtain ⟨ad, k, alg, hraw, hs⟩ := key (e := e) hp hk hf
+  obtain ⟨ad', k', alg', hraw', hs'⟩ := key (e := e) hp' hk' (by rw [hf']; exact hf)
+  obtain ⟨had, hcdj⟩ := sig_same_data_same hs hs' hsig hbind hlen hcol
+  exact ⟨by rw [hraw, hraw', had], hcdj⟩
+
+/-- collision-freeness of one of the library's hashes on a given pair of messages (hypothesis) -/
+def NoCollisionH (W : World) (h : HashAlg) (m m' : Bytes) : Prop := W.hash h m = W.hash h m' → m = m'
+
+/-- tpm: the statement (certInfo, alg) pins authenticator data and client data through extraData: of two accepted
+tpm registrations with the same certInfo and alg members, authenticator data and client data are the same —
+changing either, the statement kept, is rejected. (Changing certInfo itself with the signature kept falls under
+`SigBinds`, see `sig_same_data_same`.) -/
+theorem bitflip_reg_tpm {W : World} {c c' : RegCred} {e : RegExpect} {r r' : VerifiedReg} {ao ao' : AttObj}
+    (h : runM W (verifyReg c e) = .ok r) (h' : runM W (verifyReg c' e) = .ok r')
+    (hf : r.fmt = "tpm") (hf' : r'.fmt = "tpm")
+    (hao : parseAttObj c.attestationObject = .ok ao) (hao' : parseAttObj c'.attestationObject = .ok ao')
+    (hci : ao'.attStmt.certInfo = ao.attStmt.certInfo) (halg : ao'.attStmt.alg = ao.attStmt.alg)
+    (hlen : ∀ b, (W.hash .sha256 b).length = 32)
+    (hcol0 : NoCollisionH W .sha256 c.clientDataJSON c'.clientDataJSON)
+    (hcol : ∀ hh m m', NoCollisionH W hh m m') :
+    ao'.authDataRaw = ao.authDataRaw ∧ c'.clientDataJSON = c.clientDataJSON := by
+  obtain ⟨ao1, att, roots, hao1, _, _, _, _, _, _, _, ht, _⟩ := (registration h).rules
+  obtain ⟨ao2, att', roots', hao2, _, _, _, _, _, _, _, ht', _⟩ := (registration h').rules
+  rw [hao] at hao1; cases hao1
+  rw [hao'] at hao2; cases hao2
+  obtain ⟨ad, _, _, _, _, alg, _, certInfo, _, ci, _, h0, hh, _, _, hraw, halg1, _, _, _, _, _, _, _, _, hci1, hpci, _, _,
+    hh0, hhh, hextra, _⟩ := (ht hf).rules
+  obtain ⟨ad', _, _, _, _, alg', _, certInfo', _, ci', _, h0', hh', _, _, hraw', halg1', _, _, _, _, _, _, _, _, hci1', hpci', _, _,
+    hh0', hhh', hextra', _⟩ := (ht' hf').rules
+  rw [halg1, halg1'] at halg
+  have : alg' = alg := by cases halg; rfl
+  subst this
+  rw [hci1, hci1'] at hci
+  have : certInfo' = certInfo := by cases hci; rfl
+  subst this
+  rw [hpci] at hpci'; cases hpci'
+  rw [hh0] at hh0'; cases hh0'
+  rw [hhh] at hhh'; cases hhh'
+  rw [hextra] at hextra'
+  have hdata := hcol _ _ _ hextra'
+  have h0eq : h0 = .sha256 := by
+    have : hashAlgByCose none = .ok .sha256 := by rfl
+    rw [this] at hh0
+    exact (Except.ok.inj hh0).symm
+  subst h0eq
+  obtain ⟨had, hhash⟩ := append_inj_right_len hdata (by rw [hlen, hlen])
+  exact ⟨by rw [hraw, hraw', had], (hcol0 hhash).symm⟩
+
+/-- apple: the certificate's nonce extension pins authenticator data and client data: of two accepted apple
+registrations with the same x5c member, authenticator data and client data are the same. -/
+theorem bitflip_reg_apple {W : World} {c c' : RegCred} {e : RegExpect} {r r' : VerifiedReg} {ao ao' : AttObj}
+    (h : runM W (verifyReg c e) = .ok r) (h' : runM W (verifyReg c' e) = .ok r')
+    (hf : r.fmt = "apple") (hf' : r'.fmt = "apple")
+    (hao : parseAttObj c.attestationObject = .ok ao) (hao' : parseAttObj c'.attestationObject = .ok ao')
+    (hx : ao'.attStmt.x5c = ao.attStmt.x5c)
+    (hlen : HashLen32 W) (hcol0 : NoCollision W c.clientDataJSON c'.clientDataJSON)
+    (hcol : ∀ m m', NoCollision W m m') :
+    ao'.authDataRaw = ao.authDataRaw ∧ c'.clientDataJSON = c.clientDataJSON := by
+  obtain ⟨ao1, att, roots, hao1, _, _, _, _, _, _, _, _, ha, _⟩ := (registration h).rules
+  obtain ⟨ao2, att', roots', hao2, _, _, _, _, _, _, _, _, ha', _⟩ := (registration h').rules
+  rw [hao] at hao1; cases hao1
+  rw [hao'] at hao2; cases hao2
+  obtain ⟨ad, x5c, leaf, rest, cert, ext, _, _, hraw, hx5c, hl, _, hcert, hn, hnonce, _⟩ := (ha hf).rules
+  obtain ⟨ad', x5c', leaf', rest', cert', ext', _, _, hraw', hx5c', hl', _, hcert', hn', hnonce', _⟩ := (ha' hf').rules
+  rw [hx, hx5c] at hx5c'
+  have : x5c' = x5c := (Except.ok.inj hx5c').symm
+  subst this
+  rw [hl] at hl'
+  have hleaf : leaf' = leaf := (List.cons.inj hl').1.symm
+  subst hleaf
+  rw [hcert] at hcert'; cases hcert'
+  rw [hn] at hn'; cases hn'
+  rw [hnonce] at hnonce'
+  have hdata := hcol _ _ hnonce'
+  obtain ⟨had, hhash⟩ := append_inj_right_len hdata (by rw [hlen, hlen])
+  exact ⟨by rw [hraw, hraw', had], (hcol0 hhash).symm⟩
+
+theorem rpIdHash_len {val : Bytes} {ao : AttObj} (h : parseAttObj val = .ok ao) : ao.authData.rpIdHash.length = 32 := by
+  obtain ⟨kvs, adBytes, _, _, _, _, hp, _⟩ := parseAttObj_ok h
+  obtain ⟨h37, hrp, _⟩ := C11.header hp
+  rw [hrp, List.length_take]; omega
+
+/-- fido-u2f: the signature covers the RP ID hash and the client-data hash (and credential id ‖ key, jointly): of two
+accepted fido-u2f registrations with the same signature member, client data and RP ID hash are the same. (The rest
+of authenticator data — flags, counter — is not covered by a U2F signature: known finding F7.) -/
+theorem bitflip_reg_u2f {W : World} {c c' : RegCred} {e : RegExpect} {r r' : VerifiedReg} {ao ao' : AttObj}
+    (h : runM W (verifyReg c e) = .ok r) (h' : runM W (verifyReg c' e) = .ok r')
+    (hf : r.fmt = "fido-u2f") (hf' : r'.fmt = "fido-u2f")
+    (hao : parseAttObj c.attestationObject = .ok ao) (hao' : parseAttObj c'.attestationObject = .ok ao')
+    (hsig : ao'.attStmt.sig = ao.attStmt.sig)
+    (hbind : SigBinds W) (hlen : HashLen32 W) (hcol : NoCollision W c.clientDataJSON c'.clientDataJSON) :
+    c'.clientDataJSON = c.clientDataJSON ∧ ao'.authData.rpIdHash = ao.authData.rpIdHash := by
+  obtain ⟨ao1, att, roots, hao1, _, _, _, _, _, _, hu, _⟩ := (registration h).rules
+  obtain ⟨ao2, att', roots', hao2, _, _, _, _, _, _, hu', _⟩ := (registration h').rules
+  rw [hao] at hao1; cases hao1
+  rw [hao'] at hao2; cases hao2
+  obtain ⟨leaf, cert, key, xb, yb, _, _, _, _, _, _, _, s, b, _, hs, hv⟩ := (hu hf).rules
+  obtain ⟨leaf', cert', key', xb', yb', _, _, _, _, _, _, _, s', b', _, hs', hv'⟩ := (hu' hf').rules
+  rw [hs, hs'] at hsig
+  have hb : b' = b := by cases hsig; rfl
+  subst hb
+  have hdata := hbind _ _ _ _ _ _ _ hv hv'
+  have l1 := rpIdHash_len hao
+  have l2 := rpIdHash_len hao'
+  simp only [List.append_assoc] at hdata
+  have h1 := List.append_inj hdata rfl
+  have h2 := List.append_inj h1.2 (by rw [l1, l2])
+  have h3 := List.append_inj h2.2 (by rw [hlen, hlen])
+  exact ⟨(hcol h3.1).symm, h2.1.symm⟩
 
 end Webauthn.Props.C06
